@@ -30,6 +30,11 @@ TRUSTED = [
     "constructors on fresh objects",
     "binary-only behaviour not in the working-tree Rust and therefore not modelled: __hash__ of immutable circuits "
     "(checked on the real objects only), the qubit-count check of `+` (histories use one qubit count)",
+    "harness/c20.py to_model(): the table that maps alternative entry points / argument forms to the model operation they are "
+    "documented to equal; the Python restatements of is_trivial_mapping, mapper / seq_mapper, get_derivatives, with_data_updated, "
+    "combine, measure and the state constructors used by the sub-checks that have no Lean model",
+    "not judged (recorded under observations_not_judged): writing into the read-only typed Mapping handed out by "
+    "LinearParameterMapping.mapping",
 ]
 
 KEY_CTOR = "ImmutableQuantumCircuit-ctor-aliases-argument"
@@ -2313,7 +2318,12 @@ def search(ctx: Ctx, budget_s: float):
 def run(ctx: Ctx, replay=None) -> int:
     ctx.rule = ("case = one operation history (construct / mutate / freeze / copy / + / bind / state / observe, 10-60 ops) run on "
                 "the real objects, on the Lean implementation model (shapes from the Rust text), on the Lean specification and on the "
-                "copying oracle; distinct = distinct histories; plus cache histories (operator mutation / lookup) on both caches")
+                "copying oracle; distinct = distinct histories; plus cache histories (operator mutation / lookup, Operator and label-iterable "
+                "arguments, cached_groups) on both caches; plus LinearParameterMapping value histories (constructor / with_data_updated / combine / "
+                "get_derivatives / mapper closures with caller-owned containers overwritten after each call), classical-bit (measure) histories, "
+                "state-constructor branches and rejected calls (operands unchanged), each judged by a direct restatement. Alternative entry points "
+                "(add_<Name>_gate, +=, add_parameter, bind_parameters_by_dict, tuple / numpy / int value sequences, tuple gate sequences) are run on "
+                "the real objects and mapped to the model operation they must equal")
     ctx.trusted = TRUSTED
     ctx.assumptions = ["all circuits of one history have the same qubit count; angles, coefficients and bound values are small integers",
                        "== on parametric circuits ignores parameter identity (behaviour of the installed binary)",
